@@ -101,4 +101,59 @@ pub fn run(cx: &mut Ctx) {
             cb(&|| format!("{:?}", sq.iter().map(|&a| (alphabet[a].0, alphabet[a].1.clone())).collect::<Vec<_>>()), v);
         }
     });
+
+    // every primitive rule and simplifier on small diagrams whose spiders carry parities of boolean variables: for EVERY assignment, the
+    // instantiated diagram (pi added where the parity is odd, scalar factors multiplied in where their condition holds) keeps its exact
+    // tensor — relative to the library's tensor evaluator
+    cx.check("rules_sound_under_every_assignment", |cb| {
+        use crate::c04::{describe, diagram, star, Rng};
+        use quizx::basic_rules::*;
+        use quizx::simplify::*;
+        let seed: u64 = std::env::var("VERIF_SEED").ok().and_then(|s| s.parse().ok()).unwrap_or(0);
+        let mut r = Rng(0xc10_5eed ^ seed.wrapping_mul(0x9e3779b97f4a7c15));
+        let n = 90 * crate::scale();
+        fn eval_expr(e: &Expr, sigma: u32) -> bool { e.iter().all(|p| eval(p, sigma)) }
+        fn instantiate(g: &Graph, sigma: u32) -> Graph {
+            let mut h = g.clone();
+            for v in g.vertices() { if eval(&g.vars(v), sigma) { h.add_to_phase(v, num::Rational64::new(1, 1)); } h.set_vars(v, Parity::zero()); }
+            let mut s = *g.scalar();
+            for (e, f) in g.scalar_factors() { if eval_expr(e, sigma) { s *= *f; } }
+            *h.scalar_mut() = s;
+            h
+        }
+        type R1 = (&'static str, fn(&mut Graph, usize) -> bool);
+        type R2 = (&'static str, fn(&mut Graph, usize, usize) -> bool);
+        type S0 = (&'static str, fn(&mut Graph) -> bool);
+        let r1: Vec<R1> = vec![("pi_copy", |g, v| pi_copy(g, v)), ("remove_id", |g, v| remove_id(g, v)), ("color_change", |g, v| color_change(g, v)), ("local_comp", |g, v| local_comp(g, v)), ("remove_single", |g, v| remove_single(g, v))];
+        let r2: Vec<R2> = vec![("spider_fusion", |g, a, b| spider_fusion(g, a, b)), ("pivot", |g, a, b| pivot(g, a, b)), ("gen_pivot", |g, a, b| gen_pivot(g, a, b)), ("boundary_pivot", |g, a, b| boundary_pivot(g, a, b)),
+            ("boundary_local_comp", |g, a, b| boundary_local_comp(g, a, b)), ("gadget_fusion", |g, a, b| gadget_fusion(g, a, b)), ("remove_pair", |g, a, b| remove_pair(g, a, b)), ("remove_duplicate", |g, a, b| remove_duplicate(g, a, b))];
+        let s0: Vec<S0> = vec![("clifford_simp", |g| clifford_simp(g)), ("full_simp", |g| full_simp(g)), ("flow_simp", |g| flow_simp(g))];
+        for k in 0..n {
+            let mut g = match k % 3 { 0 => diagram(&mut r, false), 1 => diagram(&mut r, true), _ => star(&mut r) };
+            // parities over 3 variables on about half of the spiders
+            let vs: Vec<usize> = g.vertices().collect();
+            for &v in &vs { if g.vertex_type(v) != quizx::graph::VType::B && r.below(2) == 0 {
+                let mask = 1 + r.below(7) as u32;
+                g.set_vars(v, Parity::new((0..3u32).filter(|i| mask >> i & 1 == 1).collect::<Vec<u32>>(), false));
+            } }
+            let before: Vec<_> = (0..8u32).map(|sg| guard(|| instantiate(&g, sg).to_tensor4())).collect();
+            let mut compare = |name: String, h: &Graph, cb: &mut dyn FnMut(&dyn Fn() -> String, Result<(), String>)| {
+                let mut res = Ok(());
+                for sg in 0..8u32 {
+                    let after = guard(|| instantiate(h, sg).to_tensor4());
+                    match (&before[sg as usize], &after) {
+                        (Ok(a), Ok(b)) => if a != b { res = Err(format!("under the assignment {:03b} the instantiated tensor changed", sg)); break; },
+                        (_, Err(e)) => { res = Err(format!("evaluation after the rewrite: {}", e)); break; }
+                        _ => {}
+                    }
+                }
+                let vars: Vec<String> = g.vertices().filter(|&v| !g.vars(v).is_empty()).map(|v| format!("{}:{:?}", v, g.vars(v))).collect();
+                cb(&|| format!("{} on {} with parities [{}]", name, describe(&g), vars.join(" ")), res);
+            };
+            let top = g.vindex();
+            for (name, f) in &r1 { for v in 0..top { let mut h = g.clone(); match guard(|| f(&mut h, v)) { Ok(true) => compare(format!("{} at {}", name, v), &h, cb), Ok(false) => {}, Err(e) => cb(&|| format!("{} at {} on {}", name, v, describe(&g)), Err(e)) } } }
+            for (name, f) in &r2 { for a in 0..top { for b in 0..top { let mut h = g.clone(); match guard(|| f(&mut h, a, b)) { Ok(true) => compare(format!("{} at ({}, {})", name, a, b), &h, cb), Ok(false) => {}, Err(e) => cb(&|| format!("{} at ({}, {}) on {}", name, a, b, describe(&g)), Err(e)) } } } }
+            for (name, f) in &s0 { let mut h = g.clone(); match guard(|| f(&mut h)) { Ok(_) => compare(name.to_string(), &h, cb), Err(e) => cb(&|| format!("{} on {}", name, describe(&g)), Err(e)) } }
+        }
+    });
 }
